@@ -107,7 +107,18 @@ impl<'a> R<'a> {
                 has_xmlid = true;
                 self.id_counter += 1;
                 self.feat("xml-id");
-                if self.rng.chance(1, 4) {
+                if self.rng.chance(1, 5) {
+                    // white space that xml:id normalisation must NOT touch: TAB / LF / CR (they can only
+                    // come from character references) and the Unicode spaces (seed C02e)
+                    let odd = *self.rng.pick(&["\t", "\n", "\r", "\u{a0}", "\u{2003}", "\u{3000}", "\u{85}", "\u{2028}"]);
+                    self.feat("xml-id-odd-space");
+                    match self.rng.below(4) {
+                        0 => format!("{}i{}", odd, self.id_counter),
+                        1 => format!("i{}{}", self.id_counter, odd),
+                        2 => format!("i{} {}x", self.id_counter, odd),
+                        _ => format!("i{}{}{}x", self.id_counter, odd, odd),
+                    }
+                } else if self.rng.chance(1, 4) {
                     format!("i{} x", self.id_counter)
                 } else {
                     format!("i{}", self.id_counter)
@@ -244,7 +255,8 @@ impl<'a> R<'a> {
                 if extra && self.cfg.xmlid_spaces {
                     self.feat("xml-id-many-spaces");
                 }
-                let (vs, ve) = if is_id && !self.cfg.xmlid_spaces {
+                let plain_id = value.chars().all(|c| c == ' ' || !c.is_whitespace());
+                let (vs, ve) = if is_id && !self.cfg.xmlid_spaces && plain_id {
                     // at most one space at either end, single spaces inside
                     let lead = self.rng.chance(1, 3);
                     let trail = self.rng.chance(1, 3);
